@@ -17,7 +17,7 @@ Local Open Scope nat_scope.
 
 Definition erasing_node (g : glob) (p : pc) : option nat :=
   match p with
-  | E_s2 _ c _ _ _ | E_alloc _ c _ | E_constr _ c _ _ => Some c
+  | E_s2 _ c _ _ _ _ => Some c
   | E_ldz _ _ z | E_stz _ _ z _ | E_cas _ _ z _ => znd g z
   | _ => None
   end.
@@ -899,11 +899,11 @@ Proof. intros IA IC H. apply okn_iff. split; [apply (c_pn _ _ IC n H)|apply (pno
 
 Definition node_access (p : pc) : option nat :=
   match p with
-  | N_ld _ c | D_rd _ c | E_ld0 _ c | E_ldb _ c _ | E_ldn _ c _ _ => Some c
+  | N_ld _ c | D_rd _ c | E_ld0 _ c | EF_ld0 _ c | E_ldb _ c _ _ | E_ldn _ c _ _ _ => Some c
   | PF_next n _ | PB_back n _ => Some n
   | PF_back _ old | PB_next _ old => Some old
-  | E_s1 _ _ _ (Some p) _ => Some p
-  | E_s2 _ _ _ _ (Some x) => Some x
+  | E_s1 _ _ _ (Some p) _ _ => Some p
+  | E_s2 _ _ _ _ (Some x) _ => Some x
   | _ => None
   end.
 Lemma node_access_ok g ls t l k : InvA g ls -> InvB g ls -> InvC g ls -> nth_error ls t = Some l ->
@@ -1014,10 +1014,10 @@ Section Concrete2.
   Hypothesis IB : InvB g ls.
   Hypothesis IC : InvC g ls.
 
-  Lemma stepC_E_s1 pr it c nx0 pv nxt h its0 g1 :
-    nth_error ls t = Some (Loc pr (E_s1 it c nx0 pv nxt) h its0) ->
+  Lemma stepC_E_s1 pr it c nx0 pv nxt zr h its0 g1 :
+    nth_error ls t = Some (Loc pr (E_s1 it c nx0 pv nxt zr) h its0) ->
     (match pv with Some p => g1 = setn g p (n_next (gnode g p) nxt) | None => g1 = with_head g nxt end) ->
-    InvC (commit g1 (MErase c)) (upd ls t (Loc pr (E_s2 it c nx0 pv nxt) h its0)).
+    InvC (commit g1 (MErase c)) (upd ls t (Loc pr (E_s2 it c nx0 pv nxt zr) h its0)).
   Proof.
     intros Hl Hg1. destruct (holder_GS g ls t IA _ Hl eq_refl) as (G & Ehp & Emt). cbn [at_] in *.
     pose proof (gs_hold _ _ G) as H. cbn [hold_ok] in H. destruct H as (Hdc & l1 & l2 & El & Hpv & Hnxt).
@@ -1027,7 +1027,7 @@ Section Concrete2.
     assert (Hl2 : forall m, hd_or l2 None = Some m -> In m (lst g) /\ m <> c).
     { intros m E. destruct l2 as [|b r]; [discriminate|]. cbn in E. inversion E; subst b. split; [rewrite El; apply in_or_app; right; right; left; reflexivity|].
       intros ->. apply Hc2. left. reflexivity. }
-    set (g' := commit g1 (MErase c)). set (l' := Loc pr (E_s2 it c nx0 pv nxt) h its0).
+    set (g' := commit g1 (MErase c)). set (l' := Loc pr (E_s2 it c nx0 pv nxt zr) h its0).
     assert (Views : lst g1 = lst g /\ zlog g1 = zlog g /\ unfixed g1 = unfixed g /\ wmtx g1 = wmtx g /\
                     (forall k, dl g1 k = dl g k) /\ (forall k, isnode g1 k = isnode g k) /\ (forall k, cs_of g1 k = cs_of g k) /\
                     (forall z, grec g1 z = grec g z) /\ (forall k, pv <> Some k -> nx g1 k = nx g k) /\
@@ -1044,7 +1044,7 @@ Section Concrete2.
         + intros q Hq. inversion Hq; subst q. rewrite EN, Nat.eqb_refl. reflexivity.
       - repeat split; auto. intros p Hp. discriminate. }
     destruct Views as (V1 & V2 & V3 & V4 & V5 & V6 & V7 & V8 & V9 & V10).
-    assert (Hp2 : hpc g' (upd ls t l') = E_s2 it c nx0 pv nxt).
+    assert (Hp2 : hpc g' (upd ls t l') = E_s2 it c nx0 pv nxt zr).
     { apply (hpc_self g' ls t _ l' Hl). change (wmtx g') with (wmtx g1). rewrite V4. exact Emt. }
     eapply (InvC_unlink g g' ls t _ l' c pv IA IB IC Hl Hcl); try reflexivity.
     all: try (intros k; change (lst g') with (remove_nat c (lst g1)); rewrite V1; apply remove_nat_In).
@@ -1255,7 +1255,7 @@ Proof.
   (* 4. lock / unlock *)
   all: try (
     match type of Hl with nth_error _ _ = Some {| prog := _; at_ := ?pp; hnd := _; its := _ |} =>
-      match pp with P_lock _ => idtac | E_lock _ _ => idtac end end;
+      match pp with P_lock _ => idtac | E_lock _ _ => idtac | EF_lock _ _ => idtac end end;
     match goal with |- InvC ?gg (upd _ _ ?ll) =>
       assert (SV : sameV g gg None) by (apply sameV_mtx, sameV_refl);
       assert (Hp1 : hpc g ls = Idle) by (apply hpc_free; assumption);
@@ -1303,7 +1303,7 @@ Proof.
                   match goal with H : ndel (gnode _ ?cc) = true |- _ =>
                     let G0 := fresh "G0" in
                     destruct (hpc_holder g ls t _ IA Hl eq_refl) as [Ehp _]; pose proof (a_gs _ _ IA) as G0; rewrite Ehp in G0; cbn [at_] in G0;
-                    apply (step_E_ld0_noop g _ cc G0 (t_refs _ _ (a_thr _ _ IA t _ Hl) cc (in_or_app _ _ _ (or_intror (or_introl eq_refl)))) H) end) ]);
+                    apply (step_E_ld0_noop g _ cc G0 eq_refl (t_refs _ _ (a_thr _ _ IA t _ Hl) cc (in_or_app _ _ _ (or_intror (or_introl eq_refl)))) H) end) ]);
       destruct (h_views g gg ls t _ ll IA Hl eq_refl (ltac:(autorewrite with wm; reflexivity))) as (Hp1 & Hp2 & Hm);
       eapply (InvC_frameV2 g gg ls t _ ll None IA IB IC Hl SV)
     end end;
@@ -1353,7 +1353,7 @@ Proof.
     match goal with H : ndel (gnode ?g ?cc) = true |- InvC ?gg (upd _ _ ?ll) =>
       destruct (hpc_holder g ls t _ IA Hl eq_refl) as [Ehp _]; pose proof (a_gs _ _ IA) as G0; rewrite Ehp in G0; cbn [at_] in G0;
       assert (Pc0 : pubn g cc) by (apply (t_refs _ _ Ta); apply in_or_app; right; left; reflexivity);
-      destruct (step_E_ld0_noop g _ cc G0 Pc0 H) as [Hnl _];
+      destruct (step_E_ld0_noop g _ cc G0 eq_refl Pc0 H) as [Hnl _];
       assert (SV : sameV g gg None) by
         (repeat apply sameV_fault; apply sameV_heap; [reflexivity| |reflexivity|reflexivity]; cbn [lst commit apply_m]; apply remove_nat_notin; exact Hnl);
       destruct (h_views g gg ls t _ ll IA Hl eq_refl (ltac:(autorewrite with wm; reflexivity))) as (Hp1 & Hp2 & Hm);
@@ -1402,10 +1402,13 @@ Proof.
   all: try (apply (stepC_P_e1 g ls t IA IB IC pr o n _ its0 _ Hl); auto; fail).
   all: try (apply (stepC_PF_head g ls t IA IB IC pr n _ its0 Hl)).
   all: try (apply (stepC_PB_next g ls t IA IB IC pr n old _ its0 Hl)).
-  all: try (apply (stepC_E_s1 g ls t IA IB IC pr it c0 nx0 _ nx _ its0 _ Hl); reflexivity).
+  all: try (apply (stepC_E_s1 g ls t IA IB IC pr it c0 nx0 _ nx z _ its0 _ Hl); reflexivity).
   all: try (apply (stepC_U_dd g ls t IA IB IC pr n n0 _ its0 Hl)).
   all: try (apply (stepC_U_df g ls t IA IB IC pr n n0 _ its0 Hl)).
   all: try (apply (stepC_U_zf g ls t IA IB IC pr n _ _ its0 Hl)).
+  all: try (unfold enode; rewrite Hp1, Hp2; cbn [at_ erasing_node]; unfold thrB in Tt; cbn [at_] in Tt;
+            destruct Tt as (_ & _ & _ & Ez & _); unfold znd in *;
+            rewrite ?grec_setn by (apply (wtarget_isnode g ls t _ _ IA Hl); reflexivity); exact Ez).
 Qed.
 
 (* ---------- reachable states ---------- *)
